@@ -13,7 +13,7 @@
      key / key_leb        the code's sort key: ts, or -inf (None, below every number) when ts is absent *)
 From Coq Require Import ZArith QArith List Bool String Permutation Sorted.
 Import ListNotations.
-From AiuModel Require Import Base Ingest Ingest_proofs.
+From AiuModel Require Import Base Ingest Ingest_proofs Ftype.
 
 (* (1) completeness: if no per-file iterator raises, the iteration ends normally within the model's
    fuel, never having taken the silent-drop branch, and leaves every per-file iterator in the state
@@ -101,6 +101,21 @@ Theorem C15_wf_files_ok :
     all_ok (map init_file files).
 Proof. exact wf_files_ok. Qed.
 Print Assumptions C15_wf_files_ok.
+
+(* (10) which input is read as JSON at all (ingestion.py::detect_ftype, model Ftype.v): every path with ".json" somewhere
+   in it, whatever stands in front of it or behind it - other known extensions as substrings (run.logs/r0.json,
+   aiu.login1.rank2.json, x.pftrace.bak/f.json) included.  A file that is not taken for JSON is skipped with one ERROR line
+   and every event of that rank is lost, so this is part of "yields every event of every file". *)
+Theorem C15_json_path_is_json :
+  forall a b : string, detect_ftype (a ++ ".json" ++ b)%string = FJson.
+Proof. exact json_anywhere_is_json. Qed.
+Print Assumptions C15_json_path_is_json.
+
+Example C15_json_path_examples :
+  detect_ftype "run.logs/r0.json"%string = FJson /\ detect_ftype "aiu.login1.rank2.json"%string = FJson /\
+  detect_ftype "x.pftrace.bak/f.json"%string = FJson /\ detect_ftype "compile.log"%string = FLog /\
+  detect_ftype "api://jsonbuffer"%string = FApi /\ detect_ftype "t.pftrace"%string = FPftrace.
+Proof. repeat split; vm_compute; reflexivity. Qed.
 
 (* ---------------------------------------------------------------- non-vacuity *)
 Local Open Scope Z_scope.
